@@ -2,8 +2,28 @@
 
 package dpos
 
-import "github.com/aergoio/aergo/v2/consensus/impl/dpos/bp"
+import (
+	"github.com/aergoio/aergo/v2/consensus"
+	"github.com/aergoio/aergo/v2/consensus/impl/dpos/bp"
+)
 
 // VerifNewDPoS returns a DPoS object that has only its producer cluster set: enough for
-// IsBlockValid, which reads nothing else.
+// IsBlockValid and VerifySign, which read nothing else; VerifyTimestamp sees `dpos.Status == nil`.
 func VerifNewDPoS(c *bp.Cluster) *DPoS { return &DPoS{bpc: c} }
+
+// VerifC09NewDPoSLib: the same with a Status whose last irreversible block number is libNo (built by the
+// real newLibStatus), so that VerifyTimestamp's second clause is live.
+func VerifC09NewDPoSLib(c *bp.Cluster, libNo uint64) *DPoS {
+	ls := newLibStatus(c.Size())
+	ls.Lib = &blockInfo{BlockNo: libNo}
+	return &DPoS{bpc: c, Status: &Status{libState: ls}}
+}
+
+// VerifC09NewDPoSStatus wires a Status made by the real NewStatus and the cluster it updates into a DPoS
+// object, as dpos.New does (no block factory, no hub).
+func VerifC09NewDPoSStatus(c *bp.Cluster, s *Status, cdb consensus.ChainDB) *DPoS {
+	return &DPoS{bpc: c, Status: s, ChainDB: cdb}
+}
+
+// VerifC09LibNo is the block number VerifyTimestamp compares with.
+func (s *Status) VerifC09LibNo() uint64 { return s.libNo() }
